@@ -104,6 +104,10 @@ def build(kinds, deps):
                 if kinds[j] == 'const':
                     members.append(S.M('a%d' % j, 'u8', S.FIXED, values[jn]))
                     mx.append('<member name="a%d" type="u8"><dimension size="%s"/></member>' % (j, jn))
+                elif kinds[j] == 'enum' and (i + j) % 2 and j % 2 == 0:
+                    # ... as the limit of a limited array
+                    members.append(S.M('a%d' % j, 'u8', S.LIMITED, values[jn]))
+                    mx.append('<member name="a%d" type="u8"><dimension isVariableSize="true" size="%sV"/></member>' % (j, jn))
                 elif kinds[j] == 'enum' and (i + j) % 2:
                     # the dependency is an array size that names the enumerator (not a member of the enum's type)
                     members.append(S.M('a%d' % j, 'u8', S.FIXED, values[jn]))
